@@ -72,7 +72,10 @@ func TestVerif_C12_Inactivity(t *testing.T) {
 	}
 	verifadm.Run(t, rep, w, steps, cases, drivers)
 
-	// streams of messages (specs/Admission/AdmissionLoop.tla): the history after 1..3 deliveries
+	// streams of messages (specs/Admission/AdmissionLoop.tla): the history after 1..3 deliveries;
+	// the sequences are stated in their own (4-seat) world
+	w = verifadm.LoadLoopWorld(t)
+	validator = w.Validator()
 	verifadm.RunSequences(t, rep, "pkg/protocol/inactivity/claimSigningState", func(q *verifadm.Sequence) (verifadm.LoopState, string, error) {
 		var out verifadm.LoopState
 		base := state.NewBaseAsyncState()
